@@ -65,7 +65,10 @@ func parseCommand(c *updateContext, entry sm.Entry) (command, error) {
 	if err := cmd.UnmarshalVTUnsafe(entry.Cmd); err != nil {
 		return commandDummy{}, err
 	}
-	c.leaderIndex = cmd.LeaderIndex
+	// Entries without a leader index must not discard the index recorded by an earlier entry of the same batch.
+	if cmd.LeaderIndex != nil {
+		c.leaderIndex = cmd.LeaderIndex
+	}
 	return wrapCommand(cmd), nil
 }
 
